@@ -182,8 +182,11 @@ def inverted_partition(ctx, feat):
     for (c, pat, inp), ln, a, b in zip(cases, lines_n, on, oi):
         va = parse_val(a) if a.startswith("(") else None
         vb = parse_val(b) if b.startswith("(") else None
-        if not va or not vb or va[0] == 0 or vb[0] == 0 or not va[1] or not vb[1]:
+        if va is None or vb is None:
+            ctx.violation("harness failure in the inverted-partition case: %s / %s" % (a[:80], b[:80]), dict(kind=1302, line=ln), nfi=True)
             continue
+        if va[0] == 0 or vb[0] == 0 or not va[1] or not vb[1]:
+            continue        # pattern rejected, or the line strategy was selected (the pattern cannot match the terminator)
         ltb = bytes([c["ltbyte"]])
         total = inp.count(ltb) + (0 if inp.endswith(ltb) or not inp else 1)
         covered = set()
